@@ -264,6 +264,113 @@ theorem sizePlan_spec (ranges : List Int) (limit : Int) : ∀ (fuel : Nat) (excl
         simp only [Bool.or_eq_false_iff, decide_eq_false_iff_not] at this
         exact ⟨this.1.2, this.2⟩
 
+
+/-! ### the loops of the two wrapping planners terminate -/
+
+def sizeOutOfFuel : SizeOutcome → Bool
+  | .outOfFuel => true
+  | _ => false
+
+theorem sizePlan_terminates (ranges : List Int) (limit : Int) : ∀ (fuel : Nat) (excl : Excl) (marked : List Nat)
+    (ms : List Meta), free excl ms < fuel → sizeOutOfFuel (sizePlan ranges limit fuel excl marked ms) = false
+  | 0, _, _, _, h => by omega
+  | fuel + 1, excl, marked, ms, h => by
+    unfold sizePlan
+    split
+    · rfl
+    · rename_i p hplan
+      split
+      · rfl
+      · rename_i b hb
+        have hbp : b ∈ p := by
+          rcases sizeScan_mem limit p 0 none none b hb with h' | h'
+          · exact h'
+          · simp at h'
+        have hbm : b ∈ ms := (C30_subset ranges excl ms p hplan).subset hbp
+        have hbe := C30_no_excluded ranges excl ms p hplan b hbp
+        have := free_lt_of_mark excl ms b hbm hbe
+        exact sizePlan_terminates ranges limit fuel _ _ ms (by omega)
+
+/-- `filter_loop_terminates`: the loop of `largeTotalIndexSizeFilter.plan` ends after at most one round
+    per block of the group — every round marks a block of the current plan, which was not excluded
+    before (C30_no_excluded), so the set of excluded blocks of the group grows strictly. -/
+theorem filter_loop_terminates (ranges : List Int) (limit : Int) (excl : Excl) (marked : List Nat) (ms : List Meta) :
+    sizeOutOfFuel (sizePlan ranges limit (ms.length + 1) excl marked ms) = false := by
+  apply sizePlan_terminates
+  have := List.countP_le_length (p := fun m : Meta => !excl m.id) (l := ms)
+  unfold free
+  omega
+
+theorem sizePlan_sublist (ranges : List Int) (limit : Int) : ∀ (fuel : Nat) (excl : Excl) (marked : List Nat)
+    (ms p : List Meta) (mk : List Nat), sizePlan ranges limit fuel excl marked ms = .ok p mk → p.Sublist ms
+  | 0, _, _, _, _, _, h => by simp [sizePlan] at h
+  | fuel + 1, excl, marked, ms, p, mk, h => by
+    unfold sizePlan at h
+    split at h
+    · simp at h
+    · rename_i p' hplan
+      split at h
+      · simp only [SizeOutcome.ok.injEq] at h
+        obtain ⟨rfl, _⟩ := h
+        exact C30_subset ranges excl ms _ hplan
+      · exact sizePlan_sublist ranges limit fuel _ _ ms p mk h
+
+/-- the loop of `verticalCompactionDownsampleFilter.Plan` ends as well (repaired or not): every
+    round marks at least one not yet excluded block of the group -/
+theorem vert_loop_terminates (carry : Bool) (ranges : List Int) (limit : Int) (base : Excl) :
+    ∀ (fuel : Nat) (extra marked : List Nat) (ms : List Meta),
+      free (fun i => extra.contains i || base i) ms < fuel →
+      sizeOutOfFuel (vertPlan carry ranges limit base fuel extra marked ms) = false
+  | 0, _, _, _, h => by omega
+  | fuel + 1, extra, marked, ms, h => by
+    unfold vertPlan
+    split
+    · rename_i hsz
+      have := filter_loop_terminates ranges limit (fun i => extra.contains i || base i) [] ms
+      rw [hsz] at this
+      exact absurd this (by simp [sizeOutOfFuel])
+    · rfl
+    · rename_i p mk hsz
+      simp only
+      split
+      · rfl
+      · split
+        · rfl
+        · rename_i hdown
+          -- some downsampled block of the plan gets marked now; it was not excluded before
+          have hne : (p.filter (fun m => m.res != 0)) ≠ [] := by
+            intro h0; simp [h0] at hdown
+          obtain ⟨b, hbf⟩ := List.exists_mem_of_ne_nil _ hne
+          have hbp : b ∈ p := (List.mem_filter.mp hbf).1
+          have hbm : b ∈ ms := (sizePlan_sublist ranges limit _ _ [] ms p mk hsz).subset hbp
+          have hbe := ((sizePlan_spec ranges limit _ _ [] ms p mk (by simp) hsz).1 b hbp).1
+          apply vert_loop_terminates carry ranges limit base fuel _ _ ms
+          have hlt : free (fun i => ((if carry then extra ++ mk else extra) ++
+              (p.filter (fun m => m.res != 0)).map (·.id)).contains i || base i) ms <
+              free (fun i => extra.contains i || base i) ms := by
+            unfold free
+            apply countP_lt_of_imp' _ _ ms b
+            · intro w _ hw
+              simp only [Bool.not_eq_true', Bool.or_eq_false_iff, List.contains_eq_mem,
+                decide_eq_false_iff_not, List.mem_append, not_or] at hw ⊢
+              refine ⟨?_, hw.2⟩
+              have := hw.1.1
+              split at this
+              · simp only [List.mem_append, not_or] at this; exact this.1
+              · exact this
+            · exact hbm
+            · simpa using hbe
+            · simp only [Bool.not_eq_false', Bool.or_eq_true, List.contains_eq_mem, decide_eq_true_eq, List.mem_append]
+              exact Or.inl (Or.inr (List.mem_map.mpr ⟨b, hbf, rfl⟩))
+          omega
+
+theorem C30_vert_terminates (carry : Bool) (ranges : List Int) (limit : Int) (base : Excl) (ms : List Meta) :
+    sizeOutOfFuel (vertPlan carry ranges limit base (ms.length + 1) [] [] ms) = false := by
+  apply vert_loop_terminates
+  have := List.countP_le_length (p := fun m : Meta => !(fun i => ([] : List Nat).contains i || base i) m.id) (l := ms)
+  unfold free
+  omega
+
 /-- `verticalCompactionDownsampleFilter.Plan` (repaired): the returned plan contains no block marked
     no-compact — neither one known to the planner, nor one marked during this very call. -/
 theorem vertPlan_spec (ranges : List Int) (limit : Int) (base : Excl) : ∀ (fuel : Nat) (extra marked : List Nat)
